@@ -196,7 +196,7 @@ impl StateCheck for C15 {
                     }
                 }
                 (Expect::Value(e), Err(m)) => out.viol("computable_case_reports_a_number", &feats, &cfg, format!("error: {m}"), format!("{e}")),
-                (Expect::Error, Err(_)) => out.regime(format!("error:{}", p.get("demand").map(|s| s.as_str()).filter(|s| *s != "given").unwrap_or(mix.as_str()))),
+                (Expect::Error, Err(_)) => out.regime(format!("error:{}", p.get("demand").map(|s| s.as_str()).filter(|s| !s.starts_with("given")).unwrap_or(mix.as_str()))),
                 (Expect::Error, Ok(g)) => out.viol("non_computable_case_reports_error", &feats, &cfg, format!("{g}"), "an error instead of a number"),
                 (Expect::NoClosedForm, _) => out.regime("no_closed_form"),
             }
@@ -319,6 +319,9 @@ fn slots(d: &[f64], demand_kind: &'static str, rich: bool) -> Vec<Vec<Letter>> {
     let dl = match demand_kind {
         "none" => vec![],
         "zero" => vec![Line::D { srv: "ACS", v: cv(&zero) }],
+        // the demand of two identical dwellings / of three zones, one line each (the lines add up to D)
+        "given2" => vec![Line::D { srv: "ACS", v: cv(&sc(0.5)) }, Line::D { srv: "ACS", v: cv(&sc(0.5)) }],
+        "given3" => vec![Line::D { srv: "ACS", v: cv(&sc(0.25)) }, Line::D { srv: "ACS", v: cv(&sc(0.25)) }, Line::D { srv: "ACS", v: cv(&sc(0.5)) }],
         _ => vec![Line::D { srv: "ACS", v: cv(d) }],
     };
     let mut s0 = vec![pline("D", fv(d)), pline("demand", demand_kind)];
@@ -376,12 +379,19 @@ fn slots(d: &[f64], demand_kind: &'static str, rich: bool) -> Vec<Vec<Letter>> {
         })
         .collect();
     // slot 3: auxiliaries of the DHW system 1 (proportional to its demand profile, or not)
-    let auxs: Vec<(&str, Vec<f64>)> = vec![("none", vec![]), ("prop", sc(0.1)), ("nonprop", { let mut v = vec![0.0; d.len()]; v[0] = 20.0; v }), ("prop+out", sc(0.1))];
+    let auxs: Vec<(&str, Vec<f64>)> = vec![("none", vec![]), ("prop", sc(0.1)), ("nonprop", { let mut v = vec![0.0; d.len()]; v[0] = 20.0; v }), ("prop+out", sc(0.1)), ("two_lines", sc(0.1))];
     let slot_aux = auxs
         .into_iter()
         .map(|(n, v)| {
             let mut l = vec![pline("aux", n), pline("auxv", fv(&v))];
-            if !v.is_empty() {
+            if n == "two_lines" {
+                // two pumps: the same auxiliaries in two lines (0.07 D and 0.03 D, hundredths of kWh)
+                let v1 = cv(&sc(0.07));
+                let v2: Vec<V> = cv(&v).iter().zip(&v1).map(|(t, x)| t - x).collect();
+                l = vec![pline("aux", "prop"), pline("auxv", fv(&v)), pline("auxlines", 2)];
+                l.push(a(Some(1), &v1));
+                l.push(a(Some(1), &v2));
+            } else if !v.is_empty() {
                 l.push(a(Some(1), &cv(&v)));
             }
             if n == "prop+out" {
@@ -423,9 +433,24 @@ pub fn run(ctx: &Ctx) -> i32 {
         models.push(("D=(240) one step", vec![240.0], "given"));
         models.push(("D=(20,40,180) three steps", vec![20.0, 40.0, 180.0], "given"));
         models.push(("D=12 monthly", (0..12).map(|i| 100.0 + 10.0 * i as f64).collect(), "given"));
+        models.push(("D=(120,120) in two equal lines", vec![120.0, 120.0], "given2"));
+        models.push(("D=(60,180,20) in three lines (1/4, 1/4, 1/2)", vec![60.0, 180.0, 20.0], "given3"));
+        models.push(("D=12 monthly irregular, auxiliaries in two lines", vec![93.17, 87.31, 101.43, 77.77, 69.03, 55.51, 41.29, 39.87, 58.13, 71.71, 88.89, 97.53], "given"));
     }
     for (name, d, kind) in models {
         explore(ctx, &format!("DHW layered (demand x mix x PV x aux x bystander), {name}"), Layered { slots: slots(&d, kind, false), bases: alpha::bases(false) }, C15, shared.clone());
+    }
+    // profiles with irregular hundredths over 24 steps: sums taken in different orders differ in their last bits
+    // (auxiliaries in one and in two lines, no PV, no bystander: 2 x 20 states per profile)
+    let nprof: u64 = if ctx.quick() { 150 } else { 1500 };
+    for k in 0..nprof {
+        let d: Vec<f64> = (0..24u64).map(|i| 30.0 + (((i * 37 + k * 101 + i * i * (k + 3)) % 9973) % 977) as f64 * 0.37 + ((i * 7 + k) % 100) as f64 / 100.0).map(|x| (x * 100.0).round() / 100.0).collect();
+        let mut sl = slots(&d, "given", false);
+        sl[2].truncate(1);
+        sl[4].truncate(1);
+        let aux = std::mem::take(&mut sl[3]);
+        sl[3] = aux.into_iter().filter(|l| l.lines.iter().any(|x| matches!(x, Line::Raw(t) if t == "# P:aux=prop"))).collect();
+        explore(ctx, "DHW layered NARROW: 24-step irregular profiles, auxiliaries in one and in two lines", Layered { slots: sl, bases: alpha::bases(false) }, C15, shared.clone());
     }
     if !ctx.quick() {
         let more: Vec<(&str, Vec<f64>, &'static str)> = vec![("D=(120,120)", vec![120.0, 120.0], "given"), ("D=(200,0,40) a step without demand", vec![200.0, 0.0, 40.0], "given"), ("D=(20,40,180)", vec![20.0, 40.0, 180.0], "given"), ("D=24 steps", (0..24).map(|i| 10.0 + ((i * 7) % 11) as f64 * 9.0).collect(), "given"), ("no demand line", vec![60.0, 180.0], "none"), ("zero demand", vec![60.0, 180.0], "zero")];
